@@ -4,7 +4,8 @@
    machine wstep / wrun over handles).  lines x = x split at newlines. *)
 From Coq Require Import String List.
 From CMinx Require Import Base.Str Model.Writer Gen.SourceLiterals Proofs.WriterFacts
-     Proofs.LiteralsMatch.
+     Proofs.LiteralsMatch
+     Base.PySem Gen.PySource Proofs.SourceMatch.
 Import ListNotations.
 
 (* serialising does not change the document and is repeatable, whatever is serialised in between *)
@@ -130,3 +131,49 @@ Theorem C20_templates_pinned :
   /\ get (s"Heading.build_heading_string") rstwriter_strings = [[]; [nl]; F; [nl]; F; [nl]; F].
 Proof. exact (conj field_literals (conj option_literals heading_literals)). Qed.
 Print Assumptions C20_templates_pinned.
+
+(* ---- tie by translation: Gen/PySource.v is regenerated from the CURRENT Python source by
+   translators/py2coq.py (statement-by-statement rendering of the function into Gallina over the
+   combinators of Base/PySem.v); the model function is proved equal to it for all arguments ---- *)
+Theorem C20_get_indents_matches_source : forall n, indent n = PySource.get_indents n.
+Proof. exact get_indents_matches_source. Qed.
+Print Assumptions C20_get_indents_matches_source.
+
+Theorem C20_paragraph_matches_source :
+  forall d t, para_text d t = PySource.Paragraph_build_text_string t (indent d).
+Proof. exact para_text_matches_source. Qed.
+Print Assumptions C20_paragraph_matches_source.
+
+Theorem C20_field_matches_source :
+  forall d n t, field_text d n t = PySource.Field_build_field_string n t (indent d).
+Proof. exact field_text_matches_source. Qed.
+Print Assumptions C20_field_matches_source.
+
+Theorem C20_doctest_matches_source :
+  forall d l x, doctest_text d l x = PySource.DocTest_build_doctest_string l x (indent d).
+Proof. exact doctest_text_matches_source. Qed.
+Print Assumptions C20_doctest_matches_source.
+
+Theorem C20_list_matches_source :
+  forall d enumerated items,
+    Some (list_text d enumerated items)
+    = PySource.RSTList_build_list_string items (list_type_of enumerated) (indent d).
+Proof. exact list_text_matches_source. Qed.
+Print Assumptions C20_list_matches_source.
+
+Theorem C20_heading_matches_source :
+  forall c title, heading_text c title = PySource.Heading_build_heading_string title c.
+Proof. exact heading_text_matches_source. Qed.
+Print Assumptions C20_heading_matches_source.
+
+Theorem C20_directive_heading_matches_source :
+  forall d name args,
+    dir_heading d name args
+    = PySource.DirectiveHeading_build_heading_string name (indent d) (PySource.Directive_format_arguments args).
+Proof. exact dir_heading_matches_source. Qed.
+Print Assumptions C20_directive_heading_matches_source.
+
+Theorem C20_option_matches_source :
+  forall d n v, option_text d (n, v) = PySource.Option_build_option_string n v (indent d).
+Proof. exact option_text_matches_source. Qed.
+Print Assumptions C20_option_matches_source.
